@@ -76,6 +76,8 @@ def setup():
     import_typhon()
     import typhon.files.utils as umod
     _T["umod"] = umod
+    from sim.seams import typhon_state
+    _T["state"] = typhon_state()
 
 
 class BodyError(Exception):
@@ -690,6 +692,7 @@ class Exec:
 
 # ------------------------------------------------------------------- the run
 def run_one(tape, only=None):
+    _T["state"].restore()      # each run models a fresh interpreter
     res = new_result()
     w = gen_workload(tape)
     wd = digest_of(w)
